@@ -112,7 +112,11 @@ class FunctionParser(BaseParser):
             f = f.__func__
         if not f:
             return None
-        return getattr(f, "__annotations__", {}).get("return")
+        annotations = getattr(f, "__annotations__", {})
+        if "return" in annotations and annotations["return"] is None:
+            # "-> None" declares the None type, it is not a missing annotation
+            return type(None)
+        return annotations.get("return")
 
     @classmethod
     def infer_instancemethod(cls, func):
